@@ -99,7 +99,9 @@ def snapshot(f) -> dict:
         "type": f.type, "id": f.id, "error": [f.error.msg, fl(f.error.timestamp)] if f.error else None,
         "client": conn(f.client_conn), "server": conn(f.server_conn), "intercepted": f.intercepted,
         "is_replay": f.is_replay, "marked": f.marked, "metadata": f.metadata, "comment": f.comment,
-        "created": fl(f.timestamp_created), "has_backup": f._backup is not None, "modified": bool(f.modified()),
+        "created": fl(f.timestamp_created), "has_backup": f._backup is not None,
+        # NOT f.modified(): it is derived (backup vs. state) and not part of the flow's state; after a load it
+        # compares a list-based backup with a tuple-based get_state() (observation reported for C40, not judged here)
     }
     if f.type == "http":
         d["request"] = msg(f.request)
